@@ -19,7 +19,14 @@ Packagings (a sugared form must mean its expansion whatever index types the gene
     (2) and (4) keep the tag);
   * family `negfam`: negations with every subset of their arguments wildcarded (ALL wildcards = emptiness test, and `!r()`
     of a column-less relation included), first / last / sole body item, with inputs in which the negated relation is
-    completely empty and inputs in which it is not.
+    completely empty and inputs in which it is not;
+  * family `permjoin` (gen/c07_perm.py): a variable repeated ACROSS the first two clauses of a rule (`mutual(x, y) <--
+    link(x, y), link(y, x)`), every column of the first clause repeated in the second in every order (arity 2 and 3;
+    same-order and partial-join controls), the first relation derived (copy / permuting copy / recursive rule / facts /
+    the joining rule writing back) and, per input, also loaded or not; relative sizes both ways.  For these cases the hand
+    expansion writes the cross-clause repeats out as well (`link(x, y), link(zc1, zc2) if zc1 == y if zc2 == x`: no shared
+    variable, no join index), and (5) the plan the macro dumped is compared with Plan/PlanModel.v compile_model
+    (gen/plan_model.py: index column lists compared as LISTS; Syntax/JoinIndexOrder.v proves what depends on their order).
 """
 import concurrent.futures as cf
 import json
@@ -31,7 +38,8 @@ from .. import c07_gen as G
 from .. import c07_hir as H
 from .. import c07_neg as N
 from .. import c07_oracle as O
-from .. import dl, engine_tie, gen_dl, lib, prog
+from .. import c07_perm as P
+from .. import dl, engine_tie, gen_dl, lib, plan_model, prog
 
 PROP = "C07"
 PROP_FILE = "Props/C07.v"
@@ -66,7 +74,7 @@ def load_corpus():
             if line:
                 o = json.loads(line)
                 out.append(dict(id="c07_" + o["id"], prog=norm_prog(o["prog"]), inputs=o["inputs"], corpus=True, adversarial=o.get("names", []),
-                                macro=o.get("macro", "ascent")))
+                                macro=o.get("macro", "ascent"), cross=bool(o.get("cross"))))
     return out
 
 
@@ -85,6 +93,20 @@ def gen_neg_cases(tier, seed):
         par = k % 2 == 1
         p = N.gen_neg_program(rng, k, par)
         cases.append(dict(id="c07_n%d" % k, prog=p, inputs=N.neg_inputs(rng, p), adversarial=[], macro="ascent_par" if par else "ascent", family="negfam"))
+    return cases
+
+
+def gen_perm_cases(tier, seed):
+    """family `permjoin` (gen/c07_perm.py): a variable repeated ACROSS the first two clauses, every column of the first
+    clause in every order, the first relation derived by rules / facts and loaded; every third program under ascent_par!;
+    the hand expansion writes every cross-clause repeat out as a fresh variable + equality test"""
+    n = 36 if tier == "quick" else 240
+    cases = []
+    for k in range(n):
+        rng = lib.rng_for(seed, PROP, "permjoin%d" % k)
+        p, info = P.gen_perm_program(rng, k)
+        cases.append(dict(id="c07_p%d" % k, prog=p, inputs=P.perm_inputs(rng, p, info), adversarial=[], macro="ascent_par" if (k + k // 12) % 3 == 2 else "ascent",
+                          family="permjoin", cross=True, perm_info=info))
     return cases
 
 
@@ -109,7 +131,7 @@ def gen_cases(tier, seed):
                 inputs = G.join_repeat_inputs(rng2, p, jr)
         # every 4th program through the parallel macro (sugared text and hand expansion alike)
         cases.append(dict(id="c07_%d" % k, prog=p, inputs=inputs, adversarial=names, join_repeat=jr, macro="ascent_par" if k % 4 == 3 else "ascent"))
-    return cases + gen_neg_cases(tier, seed)
+    return cases + gen_neg_cases(tier, seed) + gen_perm_cases(tier, seed)
 
 
 def has_strata_items(p):
@@ -164,7 +186,8 @@ def ensure_coq():
     """the modules the evaluation imports (Show.v is not in the closure of the property file)"""
     with lib.Lock("coq"):
         lib.coq_makefile()
-        rc, out = lib.sh(["timeout", "1500", "make", "-j%d" % lib.NCPU, "Syntax/Show.vo", "Syntax/C07Vocab.vo", "Syntax/NegIndexModel.vo", "Syntax/ToCore.vo", "Engine/Strat.vo", "Engine/Vocab.vo"], cwd=lib.COQ, timeout=1600)
+        rc, out = lib.sh(["timeout", "1500", "make", "-j%d" % lib.NCPU, "Syntax/Show.vo", "Syntax/C07Vocab.vo", "Syntax/NegIndexModel.vo", "Syntax/ToCore.vo", "Engine/Strat.vo", "Engine/Vocab.vo",
+                          "Plan/PlanShow.vo", "Plan/PlanWf.vo"], cwd=lib.COQ, timeout=1600)
     if rc:
         raise lib.Infra("cannot build the Coq modules of the C07 tie:\n" + out[-3000:])
 
@@ -177,9 +200,12 @@ def run_cases(cases, tag="c07", coq_timeout=50, probes=()):
         c["spec"] = N.spec_program(c["prog"])
         c["obs"] = N.observed_rels(c["prog"])
         c["text"] = G.program_text(c["prog"])
-        c["expanded"] = G.expand_program(c["prog"])
+        # (cases flagged `cross`: cross-clause repeated variables are written out as well: fresh variable + equality test)
+        c["expanded"] = P.expand_program_cross(c["prog"]) if c.get("cross") else G.expand_program(c["prog"])
         c["expanded_text"] = G.program_text(c["expanded"])
         c["feats"] = G.program_features(c["prog"])
+        if c.get("cross") and P.cross_features(c["prog"]):
+            c["feats"]["cross_clause_repeated_var"] = P.cross_features(c["prog"])
     t0 = time.time()
     dumps = prog.front_run([(c["id"], c["macro"], c["text"]) for c in cases])
     timing = dict(front=round(time.time() - t0, 1))
@@ -329,6 +355,40 @@ def note_neg_reads(c, spec_sets, stats):
         stats["negread:%s:%s:%s:%s" % (N.mask_kind(it[2]), rk, c["macro"], state)] += 1
 
 
+def note_perm(c, inp, spec_sets, stats):
+    """coverage counters of family permjoin, per (program, input) pair evaluated on all sides: shape of the join : how the
+    first clause's relation got its rows in that run : did the joining rule derive anything (specification's result)"""
+    info = c.get("perm_info")
+    if not info:
+        return
+    d = info["d"]
+    derived = len(spec_sets[d]) > len(inp.get(d, []))
+    how = ("derived+loaded" if inp.get(d) else "derived_only") if derived else ("loaded_only" if inp.get(d) else "empty")
+    joined = "join_nonempty" if len(spec_sets["h"]) > len(inp.get("h", [])) else "join_empty"
+    stats["permjoin:%s:%s:%s" % (info["kind"], how, joined)] += 1
+    if info["kind"] == "full_permuted":
+        stats["permorder:%d:%s:%s" % (info["a1"], "".join(str(j) for j in info["perm"]), joined)] += 1
+
+
+def plan_tie(cases, stats):
+    """the planner model (Plan/PlanModel.v compile_model, gen/plan_model.py) against the plan the macro dumped for the programs
+    whose cross-clause repeats are served by indices: index COLUMN LISTS are compared as lists (order included)"""
+    todo = [c for c in cases if c.get("cross") and c.get("front", {}).get("status") == "ok"]
+    if not todo:
+        return []
+    t1 = time.time()
+    ps = {}
+    mm = plan_model.check([(c["id"], c["macro"], c["text"]) for c in todo], {c["id"]: c["front"] for c in todo}, stats=ps, tag="c07plan")
+    by = {c["id"]: c for c in todo}
+    for m in mm:
+        c = by[m["case"]["id"]]
+        m["case"] = dict(m["case"], macro=c["macro"], prog=c["prog"], inputs=c["inputs"], cross=True)
+    stats["plan_model_compared"] += ps.get("evaluations", 0)
+    stats["plan_model_untranslatable"] += ps.get("untranslatable", 0)
+    TIMING["plan_model"] = round(time.time() - t1, 1)
+    return mm
+
+
 def compare(c, stats):
     """mismatch dicts of one program"""
     mism = []
@@ -339,6 +399,8 @@ def compare(c, stats):
     def seen(sets):
         return None if sets is None else {name: sets[name] for name, _, _ in obs}
     base = dict(id=c["id"], macro=c["macro"], program=c["text"], expanded=c["expanded_text"], prog=p, adversarial_names=c.get("adversarial", []))
+    if c.get("cross"):
+        base["cross"] = True
     if c["spec"] is not p:
         base["specification_program"] = G.program_text(c["spec"])
     v = c["coq"]
@@ -445,6 +507,7 @@ def compare(c, stats):
         stats["evaluations"] += 1
         if nforms >= 2:
             stats["distinct"] += 1
+        note_perm(c, inp, S[k], stats)
         if i1 != i2:
             mism.append(dict(case=cs, impl=dict(sugared=i1), model=dict(desugared_model=D[k]), spec=dict(hand_expansion=i2, surface=S[k]), kind="impl_violates_spec", known=known,
                              what="the sugared program and its documented core expansion compute different relations under %s! (%s)" % (c["macro"], first_diff(i1, i2, obs))))
@@ -474,7 +537,7 @@ def tie(tier, seed, replay):
         r = json.load(open(replay if os.path.isabs(replay) else os.path.join(lib.VERIF, replay)))
         cs = r["case"]
         cases = [dict(id=cs.get("id", "c07_replay"), prog=norm_prog(cs["prog"]), inputs=[cs["input"]] if "input" in cs else cs["inputs"],
-                      adversarial=cs.get("adversarial_names", []), macro=cs.get("macro", "ascent"))]
+                      adversarial=cs.get("adversarial_names", []), macro=cs.get("macro", "ascent"), cross=bool(cs.get("cross")))]
     else:
         cases = load_corpus() + gen_cases(tier, seed)
     probes = [] if replay else N.probes()
@@ -483,6 +546,7 @@ def tie(tier, seed, replay):
     mism = []
     for pr in probes:
         mism += compare_probe(pr, stats)
+    mism += plan_tie(cases, stats)
     feats, progs_with = Counter(), Counter()
     for c in cases:
         mism += compare(c, stats)
@@ -510,19 +574,23 @@ def tie(tier, seed, replay):
                 feats["adversarial:" + (nm if nm in G.NASTY_FIXED else "<var>" + nm[nm.rindex("_"):])] += 1
     samples = [c["text"] for c in cases if not c.get("corpus")][:3] + [c["text"] for c in cases if c.get("adversarial") and not c.get("corpus")][:2]
     samples += ["%s! { %s }" % (c["macro"], c["text"]) for c in cases if c.get("family") == "negfam"][:3]
+    samples += [dict(macro=c["macro"], sugared=c["text"], hand_expansion=c["expanded_text"]) for c in cases if c.get("family") == "permjoin"][:3]
     negreads = {k[len("negread:"):]: v for k, v in stats.items() if k.startswith("negread:")}
-    outcome = {k: v for k, v in stats.items() if not k.startswith("negread:")}
+    permruns = {k: v for k, v in stats.items() if k.startswith(("permjoin:", "permorder:"))}
+    outcome = {k: v for k, v in stats.items() if not k.startswith(("negread:", "permjoin:", "permorder:"))}
     exp_sample = [dict(sugared=c["text"], hand_expansion=c["expanded_text"]) for c in cases if c["feats"].get("disj") and c["feats"].get("repeated_var")][:1]
     return dict(
         evaluations=stats["evaluations"], distinct_nontrivial=stats["distinct"],
-        rule="generated sugared programs (relations on levels, negation only downwards; general generator + family negfam; ascent! and ascent_par!; default, column-less and BYODS-tagged relations) x 2-4 input databases; counted: (program, input) pairs on which the sugared program through macro+rustc, its python hand expansion through macro+rustc, and the Coq surface denotation all produced relations (the Coq desugared core program is compared on top, it must agree when wf_surface holds), and whose program uses >= 2 distinct sugar forms among %s" % ", ".join(G.SUGAR_FORMS),
+        rule="generated sugared programs (relations on levels, negation only downwards; general generator + family negfam + family permjoin; ascent! and ascent_par!; default, column-less and BYODS-tagged relations) x 2-4 input databases; counted: (program, input) pairs on which the sugared program through macro+rustc, its python hand expansion through macro+rustc, and the Coq surface denotation all produced relations (the Coq desugared core program is compared on top, it must agree when wf_surface holds), and whose program uses >= 2 distinct sugar forms among %s" % ", ".join(G.SUGAR_FORMS),
         samples=samples + exp_sample,
         distribution=dict(programs=len(cases), occurrences=dict(feats), programs_using=dict(progs_with), outcome=outcome,
+                          cross_clause_joins_evaluated=dict(note="family permjoin, per (program, input) pair that produced relations on all sides. permjoin:(all columns of clause 1 repeated in clause 2 in another order | in the same order | a proper subset):(rows of clause 1's relation in that run: derived_only | derived+loaded | loaded_only | empty):(the joining rule derived a tuple | not); permorder:(arity of clause 1):(order in which clause 2 mentions clause 1's columns):(..)", counts=permruns),
                           negations_evaluated=dict(note="(wildcard mask kind):(negated relation: default | provider):(macro):(negated relation empty | nonempty in that run), per (program, input) pair that produced relations on all sides", counts=negreads)),
         mismatches=mism,
         trusted_base=["gen/c07_neg.py spec_program: the explicit closure rules standing for a provider-tagged relation (eqrel: reflexive on mentioned elements + symmetric + transitive; trrel: transitive; trrel_uf: reflexive on mentioned elements + transitive; per key for ternary forms) — the specification C10 / C11 / C12 check the providers against",
                       "Syntax/NegIndexModel.v (code generated for a negated clause over the kinds of index): index_get is tied to the real index types by a probe (6 packagings x 3 relation contents, after run()); the shape of the emitted loop (`into_iter().flatten()` + `not`) is read off ascent_codegen.rs and observed only through the compiled programs",
                       "gen/c07_gen.py: renderers of one AST to Rust text and to Syntax/Surface.v terms, and the hand expansion (a wrong one shows as a false alarm: three independent sides are compared)",
+                      "gen/c07_perm.py expand_program_cross (family permjoin): the hand expansion of a variable bound by an earlier body item = fresh variable + attached equality test (checked like the rest of the hand expansion: against the Coq denotation and the python oracle)",
                       "gen/c07_hir.py: translation of the FRONT dump's desugared rules into Show.v trees (token strings matched against the vocabulary templates of gen/dl.py)",
                       "coq/Syntax/C07Vocab.v vs the Rust patterns / expression templates of the vocabulary",
                       "FRONT hook (ascent_macro/src/verif_hook.rs) dumps what desugar_ascent_program returned; generated crates compiled by rustc against the working tree"],
